@@ -11,7 +11,7 @@ STUBS = ["HDF5 dataset + attributes -> the flattened array, offsets, shapes and 
          "entry KINDS (unset, empty, scalar, 1-D of length 1..3, 2-D 1x2 / 2x1 / 2x2, tuple) are symbolic and enumerated "
          "by forking; element values are concrete pairwise different numbers"]
 
-KINDS = ["none", "empty", "scalar", "v1", "v2", "v3", "tuple2", "m12", "m21", "m22"]
+KINDS = ["none", "empty", "scalar", "v1", "v2", "v3", "tuple2", "m12", "m21", "m22", "m23T", "m32F"]
 
 
 def make(kind, base):
@@ -26,6 +26,10 @@ def make(kind, base):
     if kind == "tuple2":
         return (float(base), float(base + 1))
     shape = (int(kind[1]), int(kind[2]))
+    if kind.endswith("T"):      # a transposed view: same logical values, not C-contiguous in memory
+        return np.arange(base, base + shape[0] * shape[1], dtype=float).reshape(shape[::-1]).T
+    if kind.endswith("F"):      # Fortran-ordered storage
+        return np.asfortranarray(np.arange(base, base + shape[0] * shape[1], dtype=float).reshape(shape))
     return np.arange(base, base + shape[0] * shape[1], dtype=float).reshape(shape)
 
 
@@ -37,8 +41,8 @@ def expected(kind, base):
     return np.atleast_1d(np.array(v, dtype=float))
 
 
-@harness("C05", bounds="collections of 1..4 entries, each entry kind symbolic (10 kinds): every pattern of kinds and "
-                       "unset positions (10^n patterns, solver-enumerated)", stubs=STUBS, max_paths=20000,
+@harness("C05", bounds="collections of 1..4 entries, each entry kind symbolic (12 kinds incl. non-contiguous 2-D arrays): every pattern of kinds and "
+                       "unset positions (12^n patterns, solver-enumerated)", stubs=STUBS, max_paths=20000,
          instances={"quick": [dict(n=1), dict(n=2), dict(n=3)], "thorough": [dict(n=4)]})
 def ragged_collection_survives_packing_or_is_refused(ctx, n):
     kinds = [ctx.choice("kind%d" % k, KINDS) for k in range(n)]
